@@ -26,6 +26,7 @@ func genCLI(t *rapid.T) CLICase {
 				Ck: rapid.IntRange(0, 4).Draw(t, "ck") == 0, Fail: rapid.IntRange(0, 3).Draw(t, "fail") == 0})
 		case k < 8:
 			op := Op{Kind: "apply", N: rapid.SampledFrom([]int{0, 0, 1, 2}).Draw(t, "n"), Order: rapid.IntRange(0, 2).Draw(t, "order")}
+			op.Via = rapid.SampledFrom([]int{0, 0, 1, 2}).Draw(t, "via")
 			if c.Dirty {
 				op.Allow = rapid.Bool().Draw(t, "allow")
 			}
@@ -88,6 +89,13 @@ func runCLI(t *testing.T, col *ev.Collector) {
 		{Dirty: true, Ops: []Op{{Kind: "add", V: "10", Fail: true}, {Kind: "apply", N: 2, Allow: true}, {Kind: "add", V: "60"}, {Kind: "apply", Order: 1, Allow: true}, {Kind: "add", V: "20"}, {Kind: "set", V: "20"}, {Kind: "apply", Allow: true}}},
 		{Ops: []Op{{Kind: "add", V: "10", Fail: true}, {Kind: "add", V: "20"}, {Kind: "add", V: "30"}, {Kind: "apply"}, {Kind: "set", V: "20"}, {Kind: "apply"}}},
 		{Ops: []Op{{Kind: "add", V: "30"}, {Kind: "add", V: "60"}, {Kind: "apply"}, {Kind: "add", V: "50"}, {Kind: "add", V: "40", Fail: true}, {Kind: "apply", Order: 2}, {Kind: "apply", Order: 2}, {Kind: "fix", V: "40"}, {Kind: "apply", Order: 2}}},
+	}
+	// an out-of-order file met under each execution order, the order stated by the flag, by the env of a project file, or
+	// by the flag against another order in the env
+	for order := 0; order < 3; order++ {
+		for via := 0; via < 3; via++ {
+			fixed = append(fixed, CLICase{Ops: []Op{{Kind: "add", V: "30"}, {Kind: "add", V: "60"}, {Kind: "apply"}, {Kind: "add", V: "50"}, {Kind: "apply", Order: order, Via: via}, {Kind: "apply", Order: order, Via: via}}})
+		}
 	}
 	for _, c := range fixed {
 		if !ev.Each(col, "cli-fixed-histories", c, check, knownCLI) {
